@@ -1,9 +1,41 @@
-import ShpanVerif.Util.Parse
-/- Driver handler for C05 (stub: replaced when the property's model lands). -/
+import ShpanVerif.Drive.PipeCommon
+import ShpanVerif.Spec.PipeDemand
+/-
+Driver handler for C05 (sequential part): laziness and bounded pulling.
+Spec predicate on the observation: nothing happens before the terminal (pre = 0), and for every probe source
+the number of Emit calls is at most `Spec.demand` — the needed prefix plus the operators' fixed look-ahead,
+computed from the list-level meaning only. Under `take:n` the terminal asks the pipeline for n elements
+(the n+1-th pull is answered by Limit's counter); under `all` for every element plus the EOF pull.
+-/
 namespace ShpanVerif.Drive.C05
+open ShpanVerif.Util ShpanVerif.Model.Pipe ShpanVerif.Drive.PipeCommon ShpanVerif
 
-/-- returns (model output, spec verdict on the observation, reason) -/
-def handle (_c _obs : String) : String × Bool × String :=
-  ("unimplemented", false, "no model yet")
+def countE (s : String) : Nat := (s.toList.filter (· == 'E')).length
+
+def specRun (p : Pipe) (r : Run) (o : ObsRun) : Bool × String :=
+  if o.pre != 0 then (false, s!"{o.pre} probe events before the terminal operation") else
+  match r.fault, Spec.eval p with
+  | none, some l =>
+    let n := match r.take with
+      | none => Spec.terminalCalls l
+      | some k => if k ≤ 0 then 0 else if l.length ≥ k.toNat then k.toNat else l.length + 1
+    match Spec.demand p n with
+    | some f =>
+      match o.events.find? (fun e => countE e.2 > f e.1) with
+      | some e => (false, s!"source {e.1} pulled {countE e.2} times, bound {f e.1}")
+      | none => (true, "")
+    | none => (true, "")
+  | _, _ => (true, "")
+
+def handle (c obs : String) : String × Bool × String :=
+  match parseCase c with
+  | none => ("bad-case", false, "unparsable case")
+  | some (p, rs) =>
+    if (Spec.eval p).isNone then (obs, true, "") else
+    let model := agreeOr { result := false, delivered := false, events := fun c => c == 'E' } (modelText p rs) obs
+    match parseObs obs, rs with
+    | some [o], [r] => let (ok, why) := specRun p r o; (model, ok, why)
+    | some _, _ => (model, true, "")
+    | none, _ => (model, false, "unparsable observation")
 
 end ShpanVerif.Drive.C05
